@@ -91,21 +91,33 @@ def worker(cfg, tier):
     rng_in, g_in, tsmax_in = tr.in_pytree(flat)
     # the horizon is kept concrete (it fixes the array shapes); everything else symbolic
     flat = list(flat)
-    flat[-1] = it.from_concrete(np.asarray(ts_max0), np.float32)
+    pre = []
+    if not augment:
+        # generate_graphs: every episode has the requested horizon (it also fixes the array shapes): concrete
+        flat[-1] = it.from_concrete(np.asarray(ts_max0), np.float32)
+        tsm = z3.RealVal(Fraction(float(np.float32(cfg["ts_max"]))))
     rng_in, g_in, tsmax_in = tr.in_pytree(flat)
     out = tr.run(it, flat)
-    tsm = Fraction(float(np.float32(cfg["ts_max"])))
     obs = []
     tmo = 120 if tier == "quick" else 600
-    pre = []
-    if augment:  # the pre-existing part is an arbitrary well-formed vertex set for node a
+    if augment:
+        # augment_graphs: the array shapes come from the longest episode of the batch (closure value H_all, concrete); the horizon of *this*
+        # episode is what rex derives from the given graph, h = max ts_end of its vertices, and is symbolic in [0, H_all].
+        # The pre-existing part is an arbitrary well-formed vertex set for node a: executed prefix, then padding (seq -1, any times <= h).
+        cell = episode.__closure__[episode.__code__.co_freevars.index("ts_max")].cell_contents
+        H_all = Fraction(float(np.float32(np.max(cell))))
+        tsm = tsmax_in.item()
         va = g_in.vertices["a"]
         n = va.seq.shape[0]
+        hmax = z3.RealVal(0)
         for i in range(n):
-            pre += [z3.Or(va.seq.v[i] == i, va.seq.v[i] == -1), va.ts_start.v[i] >= 0, va.ts_end.v[i] >= va.ts_start.v[i], va.ts_end.v[i] <= 10]
+            pad = va.seq.v[i] == -1
+            pre += [z3.Or(va.seq.v[i] == i, pad), va.ts_end.v[i] <= tsm,
+                    z3.If(pad, z3.And(va.ts_start.v[i] >= -1, va.ts_end.v[i] >= -1), z3.And(va.ts_start.v[i] >= 0, va.ts_end.v[i] >= va.ts_start.v[i]))]
             if i + 1 < n:
-                pre += [va.ts_start.v[i + 1] >= va.ts_end.v[i], z3.Implies(va.seq.v[i] == -1, va.seq.v[i + 1] == -1)]
-            pre.append((va.seq.v[i] == -1) == (va.ts_end.v[i] > tsm))
+                pre += [z3.Implies(va.seq.v[i + 1] != -1, va.ts_start.v[i + 1] >= va.ts_end.v[i]), z3.Implies(pad, va.seq.v[i + 1] == -1)]
+            hmax = z3.If(va.ts_end.v[i] >= hmax, va.ts_end.v[i], hmax)
+        pre += [tsm == hmax, tsm <= H_all]
     unwind = [u for u in it.unwind_obligations]
     v, m, s = smt.check(pre, z3.And(*unwind) if unwind else z3.BoolVal(True), tmo)
     obs.append(Ob("unwinding: the message->step search loop exits within the unrolling bound", v, s, cfg, kind="unwind"))
@@ -134,7 +146,7 @@ def worker(cfg, tier):
         o = Ob(f"node {name}: starts at its phase, spaced >= one period, lasts one sampled delay >= 0, never overlaps, seq = -1 exactly beyond the horizon", v, s, cfg,
                key="gen-vertices", what="generated vertices violate the phase/period/delay/horizon law")
         if v == "sat":
-            o.replayed = _replay_public(cfg)
+            o.replayed = _replay_public(cfg) if not augment else _replay_augment(cfg, m, calls, episode, g_in, ex_graph, tsmax_in)
         obs.append(o)
 
     va, vb, e = out.vertices["a"], out.vertices["b"], out.edges[("a", "b")]
@@ -177,13 +189,13 @@ def worker(cfg, tier):
     o = Ob("edges (in-order arrivals): ts_recv = sender end + sampled delay >= 0; seq_in = first receiver step starting at/after arrival (strictly after if skip); -1 beyond the horizon", v, s, cfg,
            key="gen-edges", what="a generated message is not assigned to the first receiver step starting at or after its arrival")
     if v == "sat":
-        o.replayed = _replay_model(cfg, m, calls, episode, ex_graph, False, True) if not augment else _replay_public(cfg)
+        o.replayed = _replay_model(cfg, m, calls, episode, ex_graph, False, True) if not augment else _replay_augment(cfg, m, calls, episode, g_in, ex_graph, tsmax_in, edges=(False, True))
     obs.append(o)
     v, m, s = smt.check(pre, edge_goal(True), tmo)
     o = Ob("edges (any arrivals): seq_in = first receiver step at/after arrival that is not before the step of the previous message (FIFO channel)", v, s, cfg,
            key="gen-edges-fifo", what="generated seq_in is not the FIFO-constrained first eligible receiver step")
     if v == "sat":
-        o.replayed = _replay_model(cfg, m, calls, episode, ex_graph, True, False) if not augment else _replay_public(cfg)
+        o.replayed = _replay_model(cfg, m, calls, episode, ex_graph, True, False) if not augment else _replay_augment(cfg, m, calls, episode, g_in, ex_graph, tsmax_in, edges=(True, False))
     obs.append(o)
     v, m, s = smt.check(pre, edge_goal(False), tmo)
     o = Ob("literal clause (any arrivals): every message is assigned to the first receiver step starting at/after its own arrival", v, s, cfg, key=KEY_K4,
@@ -198,6 +210,9 @@ def worker(cfg, tier):
                       0, cfg, trivial=eqs is True, key="augment", what="augment_graphs alters an existing vertex/edge or adds the wrong keys", replayed=None))
     v, m, s = smt.satisfiable(pre + [va.seq.v[na - 1] == -1, va.seq.v[0] == 0, e.seq_in.v[0] >= 0], 60)
     obs.append(Ob("twin.horizon cut and consumed message reachable", v, s, cfg, kind="vacuity"))
+    if augment:
+        v, m, s = smt.satisfiable(pre + [tsm < H_all, z3.Or(*[z3.And(vb.seq.v[k] == -1, vb.ts_end.v[k] <= H_all) for k in range(nb)]), vb.seq.v[0] == 0], 60)
+        obs.append(Ob("twin.episode shorter than the batch's longest: a generated vertex is masked by this episode's horizon only", v, s, cfg, kind="vacuity"))
     return obs
 
 
@@ -225,6 +240,54 @@ def _replay_model(cfg, m, calls, episode, ex_graph, fifo_search, in_order_only):
             ks = [k for k in range(nb) if (vb.ts_start[k] > R[j] if skip else vb.ts_start[k] >= R[j]) and k >= (prev if fifo_search else 0)]
             k = ks[0] if ks else nb
             beyond = (va.ts_end[j] if va.seq[j] != -1 else np.inf) > cfg["ts_max"]
+            want = -1 if (k >= nb or beyond or k > vb.seq.max()) else k
+            if int(e.seq_in[j]) != want:
+                bad = True
+            if fifo_search:
+                prev = nb - 1 if k >= nb else k
+        return bad
+    except BaseException:  # noqa
+        fixtures.ORACLE_RETURNS.clear()
+        return None
+
+
+def _replay_augment(cfg, m, calls, episode, g_in, ex_graph, tsmax_in, edges=None):
+    """augment: run the real `episode` closure of the real augment_graphs call eagerly on the model's pre-existing vertices and this episode's
+    horizon, every oracle returning the model's samples; re-evaluate the vertex law (edges=None) or the edge law in numpy"""
+    import jax
+    import jax.numpy as jnp
+    from vlib import fixtures, jx
+
+    try:
+        fixtures.ORACLE_RETURNS.clear()
+        for c in calls.calls:
+            fixtures.ORACLE_RETURNS.setdefault(c["tag"], []).append(jx.model_array(m, c["outs"][0], np.float32))
+        leaves_sym = jax.tree_util.tree_leaves(g_in, is_leaf=lambda x: isinstance(x, jx.SA))
+        leaves_c, treedef = jax.tree_util.tree_flatten(ex_graph)
+        g0 = jax.tree_util.tree_unflatten(treedef, [jnp.asarray(jx.model_array(m, sa, np.asarray(c).dtype)) for sa, c in zip(leaves_sym, leaves_c)])
+        h = np.float32(float(jx.model_value(m, tsmax_in.item())))
+        g = episode(jax.random.PRNGKey(0), g0, jnp.float32(h))
+        fixtures.ORACLE_RETURNS.clear()
+        f64 = lambda t: jax.tree_util.tree_map(lambda x: np.asarray(x, np.float64), t)
+        va, vb, e = f64(g.vertices["a"]), f64(g.vertices["b"]), f64(g.edges[("a", "b")])
+        rb = cfg["rates"][1]
+        if edges is None:
+            for i in range(len(vb.seq)):
+                if vb.ts_end[i] < vb.ts_start[i] or (vb.seq[i] == -1) != (vb.ts_end[i] > h):
+                    return True
+                if i + 1 < len(vb.seq) and abs(vb.ts_start[i + 1] - max(vb.ts_end[i], vb.ts_start[i] + float(np.float32(1.0 / rb)))) > 1e-5:
+                    return True
+            return False
+        fifo_search, in_order_only = edges
+        skip, nb = cfg["skip"], len(vb.seq)
+        R = [e.ts_recv[j] if va.seq[j] != -1 else np.inf for j in range(len(va.seq))]
+        if in_order_only and any(R[j + 1] < R[j] for j in range(len(R) - 1) if va.seq[j + 1] != -1):
+            return False
+        prev, bad = 0, False
+        for j in range(len(va.seq)):
+            ks = [k for k in range(nb) if (vb.ts_start[k] > R[j] if skip else vb.ts_start[k] >= R[j]) and k >= (prev if fifo_search else 0)]
+            k = ks[0] if ks else nb
+            beyond = (va.ts_end[j] if va.seq[j] != -1 else np.inf) > h
             want = -1 if (k >= nb or beyond or k > vb.seq.max()) else k
             if int(e.seq_in[j]) != want:
                 bad = True
